@@ -110,7 +110,7 @@ def run(ctx):
     for k, kind in enumerate("bf" if not ctx.quick else rng.choice("bf")):
         a = [(kind, BIG - big_short)]
         jobs.append((gbig, dict(threads=2, blocksize=BIG, timeout=0, seed=ctx.seed * 1000 + 900 + k, perturb=0, slicing=0, endafter=-1,
-                                check=10, watchdog=120, asan=1, actions="%s%d" % a[0]), a))
+                                check=10, watchdog=200, asan=1, actions="%s%d" % a[0]), a))
     for ii, (iname, data) in enumerate(inputs):
         path = os.path.join(wd, iname + ".in"); open(path, "wb").write(data)
         settings = [(2, 40000, 0), (3, 25000, 0)] if ctx.quick else [(1, 40000, 0), (2, 40000, 0), (3, 25000, 0), (4, 16384, 0), (8, 20000, 0)]
@@ -151,21 +151,21 @@ def run(ctx):
                     # output buffer, the Index ...): LZMA_MEM_ERROR or a complete correct Stream, never a hang, a race
                     # or a "successful" Stream that lost data.  Not trace-validated (the model has worker failures only).
                     for j in range(2 if ctx.quick else 6):
-                        jobs.append((g, dict(p, seed=seed + 29 + j, endafter=-1, failalloc=rng.randint(1, 90), watchdog=12,
+                        jobs.append((g, dict(p, seed=seed + 29 + j, endafter=-1, failalloc=rng.randint(1, 90), watchdog=20,
                                              **({"asan": 1} if j % 2 else {})), acts))
                 if k == 1 and total > 1000:
                     # the same handle given to lzma_stream_encoder_mt() again without lzma_end(), then a full encode
-                    p2 = dict(p, seed=seed + 7, endafter=-1, reinit_after=rng.randint(1, 6), watchdog=12)
+                    p2 = dict(p, seed=seed + 7, endafter=-1, reinit_after=rng.randint(1, 6), watchdog=20)
                     jobs.append((g, p2, acts))
                     # ... and with another block_size the second time (larger or smaller): the workers' input
                     # buffers must fit the new size.  One of the two runs under ASan instead of TSan.
                     nbs = rng.choice([bs * 2 + rng.randrange(0, 5000), max(4096, bs // 2 - rng.randrange(0, 3000))])
-                    p4 = dict(p, seed=seed + 17, endafter=-1, reinit_after=rng.randint(1, 6), reinit_blocksize=nbs, watchdog=12)
+                    p4 = dict(p, seed=seed + 17, endafter=-1, reinit_after=rng.randint(1, 6), reinit_blocksize=nbs, watchdog=20)
                     jobs.append((g, p4, acts))
                     jobs.append((g, dict(p4, seed=seed + 19, reinit_after=rng.randint(3, 12), asan=1), acts))
                     # ... and with another thread count (more / fewer), block_size unchanged or changed too
                     nthr = nw + 1 if rng.random() < 0.5 or nw == 1 else nw - 1
-                    p5 = dict(p, seed=seed + 23, endafter=-1, reinit_after=rng.randint(1, 8), reinit_threads=nthr, watchdog=12)
+                    p5 = dict(p, seed=seed + 23, endafter=-1, reinit_after=rng.randint(1, 8), reinit_threads=nthr, watchdog=20)
                     if rng.random() < 0.4:
                         p5["reinit_blocksize"] = nbs
                     jobs.append((g, p5, acts))
@@ -184,7 +184,7 @@ def run(ctx):
                 continue
             raise MachineryError("could not count the allocations of a threaded encoder run: %r" % r0["stdout"][-200:])
         for kk in range(1, int(mm.group(1)) + 1):
-            jobs.append((g, dict(p0, failalloc=kk, watchdog=12, actions="", **({"asan": 1} if kk % 2 else {})), []))
+            jobs.append((g, dict(p0, failalloc=kk, watchdog=20, actions="", **({"asan": 1} if kk % 2 else {})), []))
     def exec_job(idx):
         g, params, acts = jobs[idx]
         p = {k: v for k, v in params.items() if not (k == "actions" and v == "") and k != "asan"}
@@ -333,7 +333,7 @@ def run(ctx):
                         if params["actions"]:
                             p1["actions"] = params["actions"]
                         if "check" in params:
-                            p1.update(check=params["check"], watchdog=120)
+                            p1.update(check=params["check"], watchdog=200)
                         r1 = mtlib.run_driver(exe_asan if g.get("big") else exe, "enc", g["path"], os.path.join(wd, "ref.out"), os.path.join(wd, "ref.tr"), **p1)
                         if r1["hang"] or r1["rc"] not in (0, 66) or not os.path.exists(os.path.join(wd, "ref.out")):
                             violation("hang:%s:T1:to0" % g["inp"], "single-thread reference run did not terminate / failed (rc %s)" % r1["rc"],
